@@ -89,6 +89,7 @@ def emit_one(g, gi, runtime_ctor):
         rules.append(txt)
     tail = ', use_lexer<vt::QuietLexer<&spec>>{}' if custom else ''
     decl = 'parser p(n%d, terms(%s), nterms(%s), rules(\n  %s\n)%s);' % (g.root, ', '.join(tref), ', '.join('n%d' % i for i in range(len(g.nts))), ',\n  '.join(rules), tail)
+    o.append('inline auto make() { ' + decl + ' return p; }')     # a fresh parser object built at run time by the calling thread
     if runtime_ctor: o.append('inline const auto& get() { static const ' + decl + ' return p; }')
     else:
         o.append('constexpr ' + decl); o.append('inline const auto& get() { return p; }')
@@ -150,10 +151,10 @@ int main(int argc, char** argv)
     // overlap: sweep over all intervals, count pairs from different threads that overlap, by operation kind of the later starter
     std::vector<Iv> all; for (auto& v : ivs) all.insert(all.end(), v.begin(), v.end());
     std::sort(all.begin(), all.end(), [](const Iv& a, const Iv& b) { return a.s < b.s; });
-    long long pairs[4] = { 0, 0, 0, 0 }; std::vector<Iv> active;
+    long long pairs[5] = { 0, 0, 0, 0, 0 }; std::vector<Iv> active;
     for (const Iv& iv : all) { size_t w = 0; for (size_t i = 0; i < active.size(); ++i) if (active[i].e > iv.s) active[w++] = active[i]; active.resize(w);
-        for (const Iv& a : active) if (a.th != iv.th) ++pairs[iv.op & 3]; active.push_back(iv); }
-    std::printf("SUM calls %zu mismatches %ld hist_bad %ld image_changed %ld overlap %lld %lld %lld %lld\n", all.size(), mismatches.load(), hist_bad, image_changed, pairs[0], pairs[1], pairs[2], pairs[3]);
+        for (const Iv& a : active) if (a.th != iv.th) ++pairs[iv.op > 4 ? 4 : iv.op]; active.push_back(iv); }
+    std::printf("SUM calls %zu mismatches %ld hist_bad %ld image_changed %ld overlap %lld %lld %lld %lld %lld\n", all.size(), mismatches.load(), hist_bad, image_changed, pairs[0], pairs[1], pairs[2], pairs[3], pairs[4]);
     for (auto& s : firstbad) std::printf("BAD %s\n", s.c_str());
     std::printf("END\n");
     return 0;
@@ -163,7 +164,7 @@ int main(int argc, char** argv)
 def emit_tu(gs, runtime):
     o = [PRE]
     for gi, g in enumerate(gs): o.append(emit_one(g, gi, gi in runtime))
-    disp = '\n'.join('    case %d: return vt::do_op<g%d::is_ctx>(g%d::get(), c.op, c.in);' % (gi, gi, gi) for gi in range(len(gs)))
+    disp = '\n'.join('    case %d: if (c.op == 4) { auto q = g%d::make(); vt::Res r = vt::do_op<g%d::is_ctx>(q, 3, c.in); vt::Res r2 = vt::do_op<g%d::is_ctx>(q, 0, c.in); r.extra = r2.v; return r; } return vt::do_op<g%d::is_ctx>(g%d::get(), c.op, c.in);' % (gi, gi, gi, gi, gi, gi) for gi in range(len(gs)))
     imgs = '\n'.join('    case %d: return ctpg::verif::access::image(g%d::get());' % (gi, gi) for gi in range(len(gs)))
     o.append(MAIN.replace('%(dispatch)s', disp).replace('%(images)s', imgs).replace('%(ng)d', str(len(gs))))
     return '\n'.join(o)
@@ -217,6 +218,7 @@ def _worker(spec):
         for d in inputs_for(g, rnd, spec['n_inputs']):
             for op in (0, 1, 2): lines.append('%d %d %s' % (gi, op, eg.hexin(d)))
         lines.append('%d 3 -' % gi)
+        for d in inputs_for(g, rnd, 2)[:2]: lines.append('%d 4 %s' % (gi, eg.hexin(d)))     # construct a fresh parser in the calling thread, diagnose and parse with it
     d = os.path.join(common.WORK, 'jobs'); os.makedirs(d, exist_ok=True)
     fd, path = tempfile.mkstemp(prefix='t', dir=d)
     logdir = tempfile.mkdtemp(prefix='tsan', dir=d)
@@ -231,13 +233,13 @@ def _worker(spec):
                 reports += re.findall(r'WARNING: ThreadSanitizer: [^\n]*\n(?:.*\n){0,12}', open(f, errors='replace').read())
                 os.unlink(f)
             C['thread_runs'] += 1
-            m = re.search(r'SUM calls (\d+) mismatches (\d+) hist_bad (\d+) image_changed (\d+) overlap (\d+) (\d+) (\d+) (\d+)', text)
+            m = re.search(r'SUM calls (\d+) mismatches (\d+) hist_bad (\d+) image_changed (\d+) overlap (\d+) (\d+) (\d+) (\d+) (\d+)', text)
             if to or 'END' not in text or not m:
                 out['viol'].append((['site:threads@crash'], '%d threads on shared parsers: run %s rc=%s: %s' % (nthreads, 'timed out' if to else 'aborted', rc, (se.decode('latin-1', 'replace') or text)[-400:]), {'grammars': [g.to_json() for g in gs]}))
                 continue
-            calls, mism, hist, img = (int(m.group(i)) for i in range(1, 5)); ov = [int(m.group(i)) for i in range(5, 9)]
+            calls, mism, hist, img = (int(m.group(i)) for i in range(1, 5)); ov = [int(m.group(i)) for i in range(5, 10)]
             C['evaluations'] += calls; C['concurrent_calls'] += calls
-            C['overlapping_call_pairs_parse'] += ov[0]; C['overlapping_call_pairs_verbose_parse'] += ov[1]; C['overlapping_call_pairs_parse_nostream'] += ov[2]; C['overlapping_call_pairs_write_diag_str'] += ov[3]
+            C['overlapping_call_pairs_parse'] += ov[0]; C['overlapping_call_pairs_verbose_parse'] += ov[1]; C['overlapping_call_pairs_parse_nostream'] += ov[2]; C['overlapping_call_pairs_write_diag_str'] += ov[3]; C['overlapping_call_pairs_run_time_construction'] += ov[4]
             C['race_report_blocks'] += len(reports)
             C['parser_objects_imaged'] += len(gs)
             for gi_, g in enumerate(gs): out['distinct'].append(common.sha(g.key(), str(nthreads))[:12])
